@@ -3,6 +3,7 @@ package world
 import (
 	"encoding/json"
 	"fmt"
+	"reflect"
 	"strings"
 
 	"github.com/ChrisTrenkamp/xsel"
@@ -403,6 +404,56 @@ var UnmarshalTargets = []struct {
 	}},
 }
 
+// FieldCheck compares, for a struct target that Unmarshal filled from a
+// one-node node-set, every string / float64 / bool field with the result of
+// its own tag query evaluated directly. It is independent of anything
+// Unmarshal may have cached in the process. Returns a description of the first
+// difference or "".
+func FieldCheck(res xsel.Result, target any, opts ...xsel.ContextApply) string {
+	ns, ok := res.(xsel.NodeSet)
+	if !ok || len(ns) != 1 {
+		return ""
+	}
+	v := reflect.ValueOf(target)
+	for v.Kind() == reflect.Pointer && !v.IsNil() {
+		v = v.Elem()
+	}
+	if v.Kind() != reflect.Struct {
+		return ""
+	}
+	for i := 0; i < v.NumField(); i++ {
+		f := v.Type().Field(i)
+		tag := f.Tag.Get("xsel")
+		if tag == "" || !f.IsExported() {
+			continue
+		}
+		g, err := xsel.BuildExpr(tag)
+		if err != nil {
+			continue
+		}
+		r, err := xsel.Exec(ns[0], &g, opts...)
+		if err != nil || r == nil {
+			continue
+		}
+		switch f.Type.Kind() {
+		case reflect.String:
+			if got := v.Field(i).String(); got != r.String() {
+				return fmt.Sprintf("field %s (tag %q) holds %q but its query gives %q", f.Name, tag, got, r.String())
+			}
+		case reflect.Float64:
+			got, want := v.Field(i).Float(), r.Number()
+			if got != want && !(got != got && want != want) {
+				return fmt.Sprintf("field %s (tag %q) holds %v but its query gives %v", f.Name, tag, got, want)
+			}
+		case reflect.Bool:
+			if got := v.Field(i).Bool(); got != r.Bool() {
+				return fmt.Sprintf("field %s (tag %q) holds %v but its query gives %v", f.Name, tag, got, r.Bool())
+			}
+		}
+	}
+	return ""
+}
+
 // DoUnmarshal runs Unmarshal under the monitor and renders the filled target.
 func DoUnmarshal(res xsel.Result, target int, opts ...xsel.ContextApply) (out string, failed bool, panicked string) {
 	defer func() {
@@ -416,5 +467,9 @@ func DoUnmarshal(res xsel.Result, target int, opts ...xsel.ContextApply) (out st
 		return "", true, ""
 	}
 	b, _ := json.Marshal(t)
-	return string(b), false, ""
+	out = string(b)
+	if d := FieldCheck(res, t, opts...); d != "" {
+		out += "\nFIELD-MISMATCH: " + d
+	}
+	return out, false, ""
 }
